@@ -44,7 +44,7 @@ func synFamilies(tier string) ([]string, map[string][]*gram.Grammar) {
 	if tier == "thorough" {
 		maxAlts = 4
 	}
-	return []string{"S1", "S2", "S3", "S4", "S5"}, map[string][]*gram.Grammar{"S1": gram.S1(maxAlts, false), "S2": gram.S2(), "S3": gram.S3(3), "S4": gram.S4(), "S5": realSynGrammars()}
+	return []string{"S1", "S2", "S3", "S4", "S5", "S6"}, map[string][]*gram.Grammar{"S1": gram.S1(maxAlts, false), "S2": gram.S2(), "S3": gram.S3(3), "S4": gram.S4(), "S5": realSynGrammars(), "S6": gram.S6()}
 }
 
 // synSweep runs every grammar through the real generator without and with -a and builds the reference automata.
